@@ -210,10 +210,12 @@ def gen_plan(seed, n_ops=None):
         kind = rng.choice(['merge', 'merge', 'zip', 'recompress', 'move',
                            'single_run', 'resume', 'cluster_rerun',
                            'zip', 'recompress', 'single_run',
-                           'killed_run', 'killed_merge'])
+                           'killed_run', 'killed_merge', 'paused_run'])
         op = {'op': kind, 'pick': rng.random(), 'pick2': rng.random(),
               'n': rng.choice([2, 2, 3, 5])}
-        if kind in ('single_run', 'killed_run'):
+        if kind == 'paused_run':
+            op['ki_line'] = rng.randint(150, 900)
+        if kind in ('single_run', 'killed_run', 'paused_run'):
             op['input'] = rng.randrange(I)
             op['trials'] = rng.randint(1, 6)
             op['ext'] = rng.choice(['.json', '.json.gz'])
@@ -406,6 +408,8 @@ class Store:
             ok = self.op_long(idx, op)
         elif kind == 'killed_run':
             ok = self.op_single(idx, op, kill=True)
+        elif kind == 'paused_run':
+            ok = self.op_single(idx, op, pause=True)
         elif kind == 'killed_merge':
             ok = self.op_merge(idx, op, kill=True)
         elif kind == 'resume':
@@ -535,15 +539,26 @@ class Store:
         proc = self.sim.new_proc(name, fault)
         kernel.set_current(proc)
         seams.clear_caches()
+        tracer = None
+        if fault and fault.get('at') == 'line':
+            tracer = seams.LineTracer(proc)
         try:
-            run_file(inp, out, n, progress=seams.sim_progress)
+            if tracer:
+                tracer.start()
+            try:
+                run_file(inp, out, n, progress=seams.sim_progress)
+            finally:
+                if tracer:
+                    tracer.stop()
         except kernel.SimKill:
             self.sim.probe('writer_killed_before_rename')
+        except KeyboardInterrupt:
+            self.sim.probe('run_paused_by_interrupt')
         finally:
             kernel.set_current(None)
             gc.collect(0)
 
-    def op_single(self, idx, op, kill=False):
+    def op_single(self, idx, op, kill=False, pause=False):
         i = op['input']
         sub = 'inputs_noisy' if op.get('noisy') else 'inputs'
         inp = os.path.join(self.data_dir, sub, f'input_{i:02d}.json')
@@ -552,8 +567,13 @@ class Store:
         if kill:
             fault = {'kind': 'kill', 'at': 'kind', 'name': 'replace-pre',
                      'event': op['nth']}
+        if pause:
+            # Ctrl-C at a traced line of panqec/simulation (possibly between
+            # the appends of one trial); the run is not resumed before the
+            # store is analysed
+            fault = {'kind': 'ki', 'at': 'line', 'event': op['ki_line']}
         self._run_file(f'op{idx}-single', inp, out, op['trials'], fault)
-        if not kill:
+        if not kill and not pause:
             self.singles.append([out, i, op['trials'], sub])
         if op.get('noisy'):
             self.sim.probe('run_with_float_noise_in_error_rate')
